@@ -376,6 +376,7 @@ func checkC16(c *Ctx, w *World) {
 	// ownership: a successfully dialed connection is handed to the pool table (which Close and the failed-construction
 	// cleanup range over) before anything else can fail; a monitored connection is created nowhere else
 	ndial := 0
+	ocs := newCondSpace(g.upd, nil)
 	eachInstr(g.upd, func(in ssa.Instruction) {
 		d, ok := in.(*ssa.Call)
 		if !ok || !isLoadOf(d.Call.Value, "GCPMultiEndpoint.dialFunc") {
@@ -388,7 +389,11 @@ func checkC16(c *Ctx, w *World) {
 			if !isMU || !isLoadOf(mu.Map, "GCPMultiEndpoint.pools") {
 				return
 			}
-			if mc, isC := stripConv(mu.Value).(*ssa.Call); isC && isCallTo(mc, g.newMC, p) && isExtractOf(mc.Call.Args[1], d, 0) {
+			val := stripConv(mu.Value)
+			if rs := ocs.ResolveUnder(mu.Value, ocs.Reach(mu)); len(rs) == 1 {
+				val = stripConv(rs[0]) // a merged (mc, created) pair has one concrete origin where the insertion is reached
+			}
+			if mc, isC := val.(*ssa.Call); isC && isCallTo(mc, g.newMC, p) && isExtractOf(mc.Call.Args[1], d, 0) {
 				targets[x] = true
 			}
 		})
@@ -405,6 +410,39 @@ func checkC16(c *Ctx, w *World) {
 			}
 		}
 		good := succ != nil && len(targets) > 0 && everyPathFromHits(succ, 0, targets)
+		if !good && succ != nil && len(targets) > 0 {
+			// path-sensitive form (the success is reported through a flag that is tested later): with the insertions removed
+			// from the graph, no return and no further iteration can be reached on the ways that pass the successful dial
+			avoid := map[*ssa.BasicBlock]bool{}
+			for t := range targets {
+				avoid[t.Block()] = true
+			}
+			acs := newCondSpaceAvoid(g.upd, nil, avoid)
+			si := 0
+			if d.Block().Succs[1] == succ {
+				si = 1
+			}
+			okDial := acs.EdgeCond(d.Block(), si)
+			escapes := false
+			for _, r := range returnsOf(g.upd) {
+				if acs.Satisfiable(and(okDial, acs.Reach(r))) {
+					escapes = true
+				}
+			}
+			for _, l := range loopsOf(g.upd) {
+				if !l.Blocks[d.Block()] {
+					continue
+				}
+				for _, lt := range l.Latch {
+					for bi, sb := range lt.Succs {
+						if sb == l.Header && acs.Satisfiable(and(okDial, acs.EdgeCond(lt, bi))) {
+							escapes = true
+						}
+					}
+				}
+			}
+			good = !escapes
+		}
 		c.check(good, "C16.close", "dialed connection is owned by the pool table at once", p.ipos(d), "on every path after a successful dial the connection is wrapped and stored in gme.pools (reachable by Close and by the failed-construction cleanup) before the update can return or dial again", "a successfully dialed connection can be left outside gme.pools when the update returns (e.g. on a later dial failure): neither Close nor the constructor's cleanup can release it or stop its monitor")
 	})
 	c.floor("C16.close:dial", ndial, 1)
